@@ -11,6 +11,9 @@ CHECKS = {
  "C02": dict(cat="fault_enumeration", tech="deterministic simulation with a Byzantine prover (single-cell and public-input faults), differential oracle against the constraint checker", ref="DESIGN.md 4/C02",
    text="The pipeline of C01 with a Byzantine prover: per generated circuit the key is generated once and a list of plans is delivered - no edit, one edited advice cell (sites walked in thorough mode, sampled in quick), one edited public input - to the real prover+verifier and to MockProver; the two verdicts must coincide and every constraint class must be seen rejected by the real verifier.",
    note="Single-cell, non-propagated edits only; the generated family stands for 'all circuits'; a prover that errors or panics on a bad assignment counts as rejection."),
+ "C17": dict(cat="exploration", tech="deterministic simulation: scheduler (pool size, task order, fresh OS threads) x storage faults (short/interrupted I/O, crash = durable prefix) x restart epochs", ref="DESIGN.md 4/C17",
+   text="Key generation is repeated under different simulated pools and task orders on fresh OS threads and must give byte-identical verifying keys; vk, pk and params go through write / restart / read epochs over a fault-injecting disk (short writes and reads, EINTR, crash mid-write) in every compatible format pair and must re-serialise identically, keep their transcript identity and remain interchangeable (proofs from original and reloaded pk under original and reloaded vk); downsize and re-derived parameters are compared byte for byte.",
+   note="HashMap iteration order cannot be seeded, so order dependence is detected with probability >= 1 - 2^-5 per run by repetition on fresh threads; GenCircuit family at k <= 8 (standard-library keys are covered through C16's decoders)."),
  "C03": dict(cat="fault_enumeration", tech="deterministic simulation with channel faults (corruption, truncation, duplication, reordering, misdelivery) placed per proof element via the tracing transcript; statement-store oracle", ref="DESIGN.md 4/C03",
    text="Every element of every sampled proof is replaced by other valid and by invalid encodings, the proof is truncated at every element boundary, extended, reordered and bit-flipped, every public-input vector is edited / permuted / shortened / extended / moved, committed instances, vk and transcript hash are swapped; each altered delivery must be rejected with an error and the untouched delivery must still be accepted afterwards.",
    note="Cryptographic soundness error ignored; proofs come from the GenCircuit family at k <= 7; thorough mode flips every bit only of proofs <= 2 KiB."),
